@@ -1,5 +1,7 @@
 """Error discipline and cache-protocol path rules:
 R-ERRDISC (C12, C13), R-DIRTY, R-FLUSHREACH (C13), R-WINDOW (C06, C12), R-FLUSHFIRST (C06)."""
+import re
+
 from cg import op_local
 from core import Finding, RuleResult, atoms_match, is_io_result_ty, view
 from facts import callee_name, fmt_place
@@ -115,7 +117,26 @@ def dirty(ctx):
         for n in v.stores_to_field("flusher", STREAM):
             st = f.blocks[n[1]]["stmts"][n[2]]
             rv = st["rv"]
-            if rv["r"] == "aggregate" and rv.get("variant") == "None":
+            from prov import Prov as _Prov
+            valp = _Prov(f)._def((n[1], n[2], st), 0, ())
+            if (rv["r"] == "aggregate" and rv.get("variant") == "None") or re.match(r"^(Option::)?None(\(\))?$", valp):
+                # the marker is thrown away without a write-back (the buffered bytes are declared obsolete): that
+                # is only true once whatever makes them obsolete has happened - nothing may fail afterwards
+                if f.d["name"] in ("new", "default"):
+                    continue
+                n_clear += 1
+                after = pg.reach_after(n)
+                hit = [e for e in v.all_err_nodes() if e in after]
+                for bb2, c2 in v.calls.items():
+                    t2 = c2.term
+                    if ("t", bb2) in after and c2.kind == "call" and not t2["dest"]["proj"] and is_io_result_ty(f.locals[t2["dest"]["local"]]) \
+                            and not c2.name.endswith("as std::ops::Try>::branch") and "FromResidual" not in c2.name:
+                        hit.append(("t", bb2))
+                if hit:
+                    res.fail(Finding("R-DIRTY", "R-DIRTY/%s/marker-dropped-before-success" % f.path,
+                                     "the dirty marker (Stream.flusher) is set to None without a write-back (line %d) and the method can still fail afterwards: if it does, the buffered bytes are neither in the file nor marked dirty, and the next flush reports Ok without writing them" % st["span"]["line"], f, st["span"]))
+                else:
+                    res.ok({"function": f.path, "marker_dropped_at_line": st["span"]["line"], "fallible_step_after": False}, nontrivial=True)
                 continue
             restore.add(n)
         for bb, c in v.calls.items():
@@ -174,6 +195,17 @@ def dirty(ctx):
                                 zero_exit.update(pg.edge_node(bb, tgt))
         if not wbs:
             continue
+        # the same, read off the guard atoms (an inverted test with an early `return Ok(0)`, a match on the count)
+        from prov import guards as _guards
+        from rules_sink import _edge_label
+        g_ = _guards(ctx, f)
+        for b_, blk_ in enumerate(f.blocks):
+            if blk_["cleanup"] or blk_["term"]["t"] != "switch":
+                continue
+            for k_, tgt_ in enumerate(f.succ(b_)):
+                val_, vals_ = _edge_label(f, b_, k_)
+                if any(re.match(r"^\((Eq|Le)\((.*),const:0\)\)$", a_) or re.match(r"^\((Eq|Ge)\(const:0,(.*)\)\)$", a_) for a_ in g_.describe_all(b_, val_, vals_)):
+                    zero_exit.update(pg.edge_node(b_, tgt_))
         # None-payload (nothing buffered) arms are not "bytes accepted"
         reach = pg.reach(wbs, marks | zero_exit | set(v.all_err_nodes()), include_starts=True)
         # a later write_bytes call is a new start, fine; look at returns
@@ -533,5 +565,66 @@ def buffull(pid):
                     else:
                         res.fail(Finding(res.rule, "R-BUFFULL/%s/refuses-with-room-left" % f.path, "write_bytes can return None although the buffer still has room (conditions on the path: %s): Stream::write then flushes, empties the window and asks again - an input that does not fit an empty window is refused again and the write returns Ok(0) for a non-empty slice" % ("; ".join(a[:70] for a in atoms[:4]) or "none"), f, st["span"]))
         res.floor("refusals of the window buffer", n, ctx.table("floors").get("buffull_sites", 0))
+        return res
+    return run
+
+
+def writeat(pid):
+    """R-WRITEAT: write_data_to_stream puts the flushed window `buf` at offset `buf_offset_from_start` of the stream,
+    whichever chain the stream lives in afterwards.  Every write_all(chain, buf) there is positioned at that offset:
+    by a seek to it on the same chain, by having first written exactly `buf_offset_from_start` carried-over bytes
+    into a fresh chain (the migration out of the mini stream), or - for a stream that was found empty - trivially.
+    How large a window is flushed at once depends on the handle's buffer size, so a migration that carries over a
+    different number of bytes gives different stream contents for different buffer sizes."""
+    from prov import Prov
+    from prov import guards as _guards
+    from rules_follow import _root_local
+
+    def run(ctx):
+        res = RuleResult("R-WRITEAT(%s)" % pid, "every write_all of the flushed window in write_data_to_stream happens at offset buf_offset_from_start of the target chain (seek to it, or exactly that many carried-over bytes written first into a fresh chain, or the stream was empty)")
+        f = ctx.fx.fns.get("internal::stream::write_data_to_stream")
+        if f is None:
+            res.gone.append("write_data_to_stream")
+            return res
+        v = view(ctx, f)
+        pr = Prov(f)
+        g = _guards(ctx, f)
+        pg = v.pg
+        n = 0
+        names = {nm: l for l, nm in f.debug_names().items()}
+
+        def vec_len(x):
+            m = re.match(r"^var:(\w+)$", x)
+            if m and m.group(1) in names:
+                ds = [pr._def(d, 1, (names[m.group(1)],)) for d in pr.defs.get(names[m.group(1)], [])]
+                if len(ds) == 1:
+                    x = ds[0]
+            m = re.match(r"^vec::from_elem\(const:0,(?:cast\()?(.*?)\)?\)$", x)
+            return m.group(1) if m else None
+        for bb, c in sorted(v.calls.items()):
+            if not c.name.endswith("Write::write_all") or len(c.term["args"]) < 2 or pr.operand(c.term["args"][1]) != "param:buf":
+                continue
+            n += 1
+            recv = pr.operand(c.term["args"][0])
+            r0 = _root_local(pr, c.term["args"][0])
+            good = set()
+            for bb2, c2 in v.calls.items():
+                if bb2 == bb or not c2.term["args"] or pr.operand(c2.term["args"][0]) != recv:
+                    continue
+                if c2.name.endswith("Seek>::seek") and len(c2.term["args"]) > 1 and pr.operand(c2.term["args"][1]) == "SeekFrom::Start(param:buf_offset_from_start)":
+                    good.update(v.ok_nodes(bb2) or [("t", bb2)])
+                if c2.name.endswith("Write::write_all") and len(c2.term["args"]) > 1 and "const:END_OF_CHAIN" in recv and vec_len(pr.operand(c2.term["args"][1])) == "param:buf_offset_from_start":
+                    good.update(v.ok_nodes(bb2) or [("t", bb2)])
+            key = "R-WRITEAT/%s" % f.path
+            if good and ("t", bb) not in pg.reach([pg.entry()], good):
+                res.ok({"function": f.path, "line": c.line, "positioned_by": "seek to / carry-over of buf_offset_from_start"}, nontrivial=True)
+                continue
+            atoms = g.atoms_at(("t", bb))
+            if "const:END_OF_CHAIN" in recv and any(re.match(r"^\(Eq\(.*\.stream_len,const:0\)\)$", a) for a in atoms) and not any(
+                    c2.name.endswith("Write::write_all") and bb2 != bb and c2.term["args"] and pr.operand(c2.term["args"][0]) == recv and ("t", bb) in pg.reach_after(("t", bb2)) for bb2, c2 in v.calls.items()):
+                res.ok({"function": f.path, "line": c.line, "positioned_by": "fresh chain for a stream found empty"}, nontrivial=True)
+                continue
+            res.fail(Finding(res.rule, key + "/window-not-written-at-its-offset", "write_all(buf) at line %d is not positioned at buf_offset_from_start: no seek to that offset and no carry-over of exactly that many bytes dominates it on this chain; the flushed window lands at another offset whenever it does not start at the old end of the stream - which depends on how much the handle buffers, i.e. on max_buffer_size" % c.line, f, c.term["span"]))
+        res.floor("writes of the flushed window", n, ctx.table("floors").get("writeat_sites", 0))
         return res
     return run
